@@ -139,6 +139,10 @@ func heapText(nodes []*pnode) string {
 }
 
 // copyHeap appends a structural copy of nodes (same shape, fresh Go objects), optionally with one atom changed
+// equalButDistinct makes copyHeap replace the int 1 by the float 1.0, 0.0 by -0.0 and back: values that
+// starlark.EqualDepth calls equal although a function can tell them apart (defect D25)
+var equalButDistinct = false
+
 func copyHeap(r *rng, nodes []*pnode, perturb bool) []*pnode {
 	n := len(nodes)
 	cp := make([]*pnode, n)
@@ -163,6 +167,20 @@ func copyHeap(r *rng, nodes []*pnode, perturb bool) []*pnode {
 			var j int
 			fmt.Sscanf(s, "r%d", &j)
 			return fmt.Sprintf("r%d", j+n), cp[j].go_
+		}
+		if equalButDistinct {
+			switch s {
+			case "i1":
+				s = "d3ff0000000000000"
+			case "d3ff0000000000000":
+				s = "i1"
+			case "d0000000000000000":
+				s = "d8000000000000000"
+			case "d8000000000000000":
+				s = "d0000000000000000"
+			case "i2":
+				s = "d4000000000000000"
+			}
 		}
 		for _, a := range cmpAtoms {
 			if a.s == s || (strings.HasPrefix(s, "d7ff8") && strings.HasPrefix(a.s, "d7ff8")) {
@@ -261,10 +279,7 @@ func compareStreams(r *rng, tier string) {
 	}
 
 	// diffEnv: the environments are dicts (as decoded function environments are)
-	which := "old"
-	if dawn.VerifVariant == "fixed" {
-		which = "fixed"
-	}
+	which := decideRule
 	m := n / 3
 	for i := 0; i < m; i++ {
 		cyc := r.below(2) == 0
@@ -278,7 +293,9 @@ func compareStreams(r *rng, tier string) {
 		root := &pnode{kind: 'm', go_: starlark.NewDict(1)}
 		root.vals = []string{"s676c6f62616c2076616c756573", "r0"}
 		root.go_.(*starlark.Dict).SetKey(starlark.String("global values"), nodes[0].go_)
-		mode := r.below(4) // 0 never run, 1 identical copy + same data, 2 identical copy + other data, 3 changed copy
+		mode := r.below(5) // 0 never run, 1 identical copy + same data, 2 identical copy + other data, 3 changed copy,
+		// 4 copy with 1 / 1.0 and 0.0 / -0.0 exchanged + other data (equal for EqualDepth, distinct for the function)
+		equalButDistinct = mode == 4
 		if which == "old" && cyc && mode == 3 {
 			mode = 1
 		}
@@ -289,6 +306,7 @@ func compareStreams(r *rng, tier string) {
 		base := append([]*pnode{}, nodes...)
 		base = append(base, root)
 		cp := copyHeap(r, base, mode == 3)
+		equalButDistinct = false
 		all = append(base, cp...)
 		xs = fmt.Sprintf("r%d", len(base)-1)
 		ys = fmt.Sprintf("r%d", 2*len(base)-1)
